@@ -3,6 +3,7 @@ package core
 import (
 	"go/types"
 	"sort"
+	"strings"
 
 	"golang.org/x/tools/go/callgraph"
 	"golang.org/x/tools/go/ssa"
@@ -12,7 +13,6 @@ import (
 // graph (roots included), optionally stopping at functions for which stop
 // returns true (those are included but not expanded).
 func (p *Program) Reach(roots []*ssa.Function, stop func(*ssa.Function) bool) map[*ssa.Function]bool {
-	cg := p.CallGraph()
 	seen := map[*ssa.Function]bool{}
 	var work []*ssa.Function
 	for _, r := range roots {
@@ -27,18 +27,227 @@ func (p *Program) Reach(roots []*ssa.Function, stop func(*ssa.Function) bool) ma
 		if stop != nil && stop(f) {
 			continue
 		}
-		n := cg.Nodes[f]
-		if n == nil {
-			continue
-		}
-		for _, e := range n.Out {
-			if g := e.Callee.Func; g != nil && !seen[g] {
+		for _, g := range p.Succs(f) {
+			if !seen[g] {
 				seen[g] = true
 				work = append(work, g)
 			}
 		}
 	}
 	return seen
+}
+
+// callThrough lists higher-order wrappers that do nothing but call their
+// function argument once (sync.Once.Do and the repository's ErrOnce wrappers).
+// At their call sites the successor is the function argument itself; the
+// wrapper body is not expanded, which keeps the graph context-sensitive for
+// the once-closures (VTA alone merges every closure ever passed to Once.Do).
+func isCallThrough(f *ssa.Function) bool {
+	n := f.String()
+	if o := f.Origin(); o != nil {
+		n = o.String()
+	}
+	switch n {
+	case "(*sync.Once).Do", "(*" + Module + "/internal/sync.ErrOnce).Do", "(*" + Module + "/internal/sync.ErrOnceWithValue[T]).Do":
+		return true
+	}
+	return false
+}
+
+func funcOfValue(v ssa.Value) *ssa.Function {
+	switch x := v.(type) {
+	case *ssa.Function:
+		return x
+	case *ssa.MakeClosure:
+		f, _ := x.Fn.(*ssa.Function)
+		return f
+	case *ssa.ChangeType:
+		return funcOfValue(x.X)
+	}
+	return nil
+}
+
+// Succs returns the module functions f may call. Module callees come from the
+// VTA graph. Calls that leave the module are not expanded (the standard
+// library's internals are irrelevant and VTA merges every closure ever passed
+// to e.g. sync.Once.Do); instead the ways the library can call back are
+// modelled at the call site: function-typed arguments are successors
+// (call-through: Once.Do, sort.Slice, ...), encoding/json marshalling reaches
+// every module MarshalJSON method, and fmt formatting reaches the
+// String/Error/Format methods of the static argument types.
+func (p *Program) Succs(f *ssa.Function) []*ssa.Function {
+	if s, ok := p.succCache[f]; ok {
+		return s
+	}
+	if p.succCache == nil {
+		p.succCache = map[*ssa.Function][]*ssa.Function{}
+	}
+	if !p.FuncInModule(f) {
+		p.succCache[f] = nil
+		return nil
+	}
+	cg := p.CallGraph()
+	n := cg.Nodes[f]
+	set := map[*ssa.Function]bool{}
+	addCallbacks := func(site ssa.CallInstruction, callee *ssa.Function) {
+		for _, a := range site.Common().Args {
+			if _, isSig := a.Type().Underlying().(*types.Signature); isSig {
+				if h := funcOfValue(a); h != nil {
+					set[h] = true
+				} else {
+					// unknown function value: fall back to every module closure/function VTA
+					// says the external callee may call
+					for _, g := range p.externCallbacks(callee) {
+						set[g] = true
+					}
+				}
+			}
+		}
+		name := callee.String()
+		if o := callee.Origin(); o != nil {
+			name = o.String()
+		}
+		switch {
+		case strings.HasPrefix(name, "encoding/json.Marshal") || name == "(*encoding/json.Encoder).Encode":
+			for _, m := range p.moduleMethodsNamed("MarshalJSON") {
+				set[m] = true
+			}
+		case strings.HasPrefix(name, "fmt.") || strings.HasPrefix(name, "(*fmt."):
+			for _, a := range site.Common().Args {
+				p.addFmtMethods(a, set, 0)
+			}
+		}
+	}
+	if n != nil {
+		for _, e := range n.Out {
+			g := e.Callee.Func
+			if g == nil {
+				continue
+			}
+			if isCallThrough(g) && e.Site != nil {
+				resolved := false
+				for _, a := range e.Site.Common().Args {
+					if _, isSig := a.Type().Underlying().(*types.Signature); isSig {
+						if h := funcOfValue(a); h != nil {
+							set[h] = true
+							resolved = true
+						}
+					}
+				}
+				if resolved {
+					continue
+				}
+			}
+			if !p.FuncInModule(g) {
+				if e.Site != nil {
+					addCallbacks(e.Site, g)
+				}
+				continue
+			}
+			set[g] = true
+		}
+	}
+	var out []*ssa.Function
+	for g := range set {
+		out = append(out, g)
+	}
+	sort.Slice(out, func(i, j int) bool { return out[i].String() < out[j].String() })
+	p.succCache[f] = out
+	return out
+}
+
+// externCallbacks: module functions reachable from an external function in the
+// raw VTA graph (used only when a function-typed argument cannot be resolved).
+func (p *Program) externCallbacks(ext *ssa.Function) []*ssa.Function {
+	cg := p.CallGraph()
+	seen := map[*ssa.Function]bool{ext: true}
+	work := []*ssa.Function{ext}
+	var out []*ssa.Function
+	for len(work) > 0 && len(seen) < 2000 {
+		f := work[len(work)-1]
+		work = work[:len(work)-1]
+		n := cg.Nodes[f]
+		if n == nil {
+			continue
+		}
+		for _, e := range n.Out {
+			g := e.Callee.Func
+			if g == nil || seen[g] {
+				continue
+			}
+			seen[g] = true
+			if p.FuncInModule(g) {
+				out = append(out, g)
+				continue
+			}
+			work = append(work, g)
+		}
+	}
+	return out
+}
+
+func (p *Program) moduleMethodsNamed(name string) []*ssa.Function {
+	var out []*ssa.Function
+	for f := range p.AllFuncs {
+		if f.Name() == name && f.Signature.Recv() != nil && f.Blocks != nil && f.Synthetic == "" && p.FuncInModule(f) {
+			out = append(out, f)
+		}
+	}
+	sort.Slice(out, func(i, j int) bool { return out[i].String() < out[j].String() })
+	return out
+}
+
+// addFmtMethods adds the String/Error/Format/GoString methods of the static
+// type of a fmt argument (looking through MakeInterface and variadic slices).
+func (p *Program) addFmtMethods(v ssa.Value, set map[*ssa.Function]bool, depth int) {
+	if depth > 4 {
+		return
+	}
+	switch x := v.(type) {
+	case *ssa.MakeInterface:
+		p.addFmtMethods(x.X, set, depth+1)
+		return
+	case *ssa.Slice:
+		// variadic pack: new [n]any; stores of elements
+		if al, ok := x.X.(*ssa.Alloc); ok {
+			for _, ref := range *al.Referrers() {
+				if ia, ok := ref.(*ssa.IndexAddr); ok {
+					for _, r2 := range *ia.Referrers() {
+						if st, ok := r2.(*ssa.Store); ok {
+							p.addFmtMethods(st.Val, set, depth+1)
+						}
+					}
+				}
+			}
+		}
+		return
+	}
+	t := v.Type()
+	if _, isIface := t.Underlying().(*types.Interface); isIface {
+		// dynamic: every module type implementing it with these methods
+		for _, name := range []string{"String", "Error"} {
+			for _, m := range p.moduleMethodsNamed(name) {
+				rt := m.Signature.Recv().Type()
+				if types.AssignableTo(rt, t) || types.AssignableTo(types.NewPointer(rt), t) {
+					set[m] = true
+				}
+			}
+		}
+		return
+	}
+	for _, tt := range []types.Type{t, types.NewPointer(t)} {
+		ms := p.SSA.MethodSets.MethodSet(tt)
+		for i := 0; i < ms.Len(); i++ {
+			switch ms.At(i).Obj().Name() {
+			case "String", "Error", "Format", "GoString":
+				if fo, ok := ms.At(i).Obj().(*types.Func); ok {
+					if m := p.SSA.FuncValue(fo); m != nil && p.FuncInModule(m) {
+						set[m] = true
+					}
+				}
+			}
+		}
+	}
 }
 
 // Callees returns the resolved callees of a call instruction in the VTA graph.
